@@ -790,7 +790,19 @@ func (w *World) elaborate(c *Contract) error {
 		pos := bodyPos
 		if rc.loop > 0 {
 			if rc.loop > len(loops.list) {
-				return fmt.Errorf("%s: contract stale: function %s has %d loops, contract names loop %d", rc.line, c.Key, len(loops.list), rc.loop)
+				// the contract gives the N-th loop an invariant: its absence is a failed obligation of the function (the
+				// code changed shape), not a broken check
+				ms := fmt.Sprintf("loop%d.exists|the contract constrains loop %d of %s but the function has only %d loop(s)", rc.loop, rc.loop, c.Key, len(loops.list))
+				dup := false
+				for _, x := range c.MissingSites {
+					if x == ms {
+						dup = true
+					}
+				}
+				if !dup {
+					c.MissingSites = append(c.MissingSites, ms)
+				}
+				continue
 			}
 			li := loops.list[rc.loop-1]
 			if !li.bodyPos.IsValid() {
